@@ -2,6 +2,7 @@ package checks
 
 import (
 	"fmt"
+	"sort"
 	"strings"
 
 	"verifharness/drv"
@@ -39,9 +40,9 @@ func spellings(c byte, q byte) map[string]string {
 }
 
 type c16Case struct {
-	lit    string // the literal as written, with quotes
-	bytes  string // what it denotes
-	label  string
+	lit   string // the literal as written, with quotes
+	bytes string // what it denotes
+	label string
 }
 
 func C16(r *drv.Run) {
@@ -50,7 +51,7 @@ func C16(r *drv.Run) {
 	if !quick(r) {
 		nrand = 400000
 	}
-	r.Rule = "exhaustive: every byte 0x01..0x7f in every spelling it has (raw, backslash+char, named escape, \\xHH, \\xhh) in both quote styles, alone, embedded between two other bytes, and as every ordered pair of 22 special bytes (CR, LF, tab, blank, both quotes, backslash, x, hex digits, controls, punctuation) in every combination of spellings; malformed \\x followed by 0, 1 or 2 hex digits and EVERY two-character continuation over 0x01..0x7f (control bytes included) that is not a hex pair (must keep all following characters); every backslash+char spelling followed by raw hex digits (stays that character and the digits); seeded random ASCII strings (length 1..8) with a random spelling per byte; a third of all cases compiled right after near-duplicates of themselves (blank runs doubled or halved, letters in the other case) in the same process. The harness composes the denoted bytes b and the spelling, so it knows both. Oracle: `find all <literal>` on b reports exactly [0,len b); on every one-byte substitution of b (neighbour values, case flip, 3 random bytes per position) it reports nothing of that span. Non-trivial = every distinct literal spelling verified on b and on its near misses."
+	r.Rule = "exhaustive: every byte 0x01..0x7f in every spelling it has (raw, backslash+char, named escape, \\xHH, \\xhh) in both quote styles, alone, embedded between two other bytes, and as every ordered pair of 22 special bytes (CR, LF, tab, blank, both quotes, backslash, x, hex digits, controls, punctuation) in every combination of spellings; malformed \\x followed by 0, 1 or 2 hex digits and EVERY two-character continuation over 0x01..0x7f (control bytes included) that is not a hex pair (must keep all following characters); every backslash+char spelling followed by raw hex digits (stays that character and the digits); every keyword of the language (both letter cases) and phrases such as `caseless #`, `0 to 9`, `WS` as a string item of an `in` list behind a class, a range, a caseless item and another string; seeded random ASCII strings (length 1..8) with a random spelling per byte; a third of all cases compiled right after near-duplicates of themselves (blank runs doubled or halved, letters in the other case) in the same process. The harness composes the denoted bytes b and the spelling, so it knows both. Oracle: `find all <literal>` on b reports exactly [0,len b); on every one-byte substitution of b (neighbour values, case flip, 3 random bytes per position) it reports nothing of that span. Non-trivial = every distinct literal spelling verified on b and on its near misses."
 	r.Assumptions = []string{"ASCII bytes 0x01..0x7f only, as the property says (the lexer writes \\x80..\\xff as two-byte runes)"}
 	var cases []c16Case
 	for _, q := range []byte{'\'', '"'} {
@@ -111,6 +112,28 @@ func C16(r *drv.Run) {
 			}
 			cases = append(cases, c16Case{lit, den, "malformed-hex"})
 			cases = append(cases, c16Case{string(q) + "a\\x" + f + string(q), "a" + den, "malformed-hex"})
+		}
+	}
+	// literals as items of an `in` list, behind items of other kinds, spelling words of the language itself and the
+	// phrases a listing of such items would print: an item is a string, never a description of another item
+	words := []string{"WS", "caseless #", "0 to 9", "# to #", "in digit", "not digit", "digit,", "'#'", "\"#\""}
+	for k := range gen.Keywords {
+		words = append(words, k, strings.ToUpper(k))
+	}
+	sort.Strings(words)
+	for wi, w := range words {
+		q := []byte{'\'', '"'}[wi%2]
+		if strings.IndexByte(w, q) >= 0 {
+			q ^= '\'' ^ '"'
+		}
+		lit := string(q) + w + string(q)
+		for _, before := range []string{"digit", "whitespace", "'0' to '9'", "caseless '#'", "'#'", "digit, whitespace, '0' to '9', caseless '#'"} {
+			// the items in front must not be able to take the word's first byte themselves
+			c0 := w[0]
+			if (c0 >= '0' && c0 <= '9' && (strings.Contains(before, "digit") || strings.Contains(before, "to"))) || (c0 == '#' && strings.Contains(before, "#")) || (c0 == ' ' && strings.Contains(before, "whitespace")) {
+				continue
+			}
+			cases = append(cases, c16Case{"in " + before + ", " + lit, w, "list-item-after-other-kinds"})
 		}
 	}
 	r.Extra["exhaustive_literals"] = len(cases)
@@ -235,7 +258,7 @@ func C16(r *drv.Run) {
 		}}
 	})
 	if r.NViolations() == 0 {
-		for _, k := range []string{"ok_single:raw", "ok_single:named", "ok_single:hex-upper", "ok_single:hex-lower", "ok_single:backslash-char", "ok_malformed-hex", "ok_malformed-hex-pair", "ok_backslash-char-then-hex-digits", "ok_random-mixed", "ok_pair:raw+raw", "ok_pair:named+raw"} {
+		for _, k := range []string{"ok_single:raw", "ok_single:named", "ok_single:hex-upper", "ok_single:hex-lower", "ok_single:backslash-char", "ok_malformed-hex", "ok_malformed-hex-pair", "ok_backslash-char-then-hex-digits", "ok_list-item-after-other-kinds", "ok_random-mixed", "ok_pair:raw+raw", "ok_pair:named+raw"} {
 			if r.Counter(k) == 0 {
 				r.Inconclusive("coverage floor: " + k + " = 0")
 			}
